@@ -53,7 +53,9 @@ INFO_BUILD = ['info.BaseInfo.__init__', 'info.BaseKeyInfo.__init__', 'info.BaseK
 
 PROPS = {
     'C01': {'functions': INFO_MATCH + MATCHER + LOADER_CFG, 'standin': True},
-    'C02': {'functions': ['info.ValueInfo.convert', 'matcher.SchemaMatcher.__init__', 'matcher.SchemaMatcher.finish'] + MATCHER,
+    'C02': {'functions': ['info.ValueInfo.convert', 'matcher.SchemaMatcher.__init__', 'matcher.SchemaMatcher.finish'] + MATCHER +
+            ['info.BaseKeyInfo.prepare_raw_defaults', 'info.KeyInfo.computedefault', 'info.MultiKeyInfo.computedefault',
+             'info.SchemaType.deriveSectionType'],
             'standin': True},
     'C03': {'functions': CFG_ALL,
             'rx': ['rx:cfgparser._keyvalue_rx', 'rx:cfgparser._section_start_rx'], 'standin': True},
@@ -93,14 +95,15 @@ PROPS = {
     'C13': {'functions': INFO_MATCH + MATCHER + LOADER_CFG, 'standin': True},
     'C14': {'functions': CMDLINE, 'standin': True},
     'C15': {'functions': [CFG + n for n in ('_normalize_case', 'nextline', 'start_section', 'end_section',
-                                            'parse', 'handle_define')], 'standin': True},
+                                            'parse', 'handle_define')] + ['matcher.BaseMatcher.addValue'],
+            'standin': True},
     'C16': {'functions': ['loader.CompositeHandler.__init__', 'loader.CompositeHandler.__call__',
                           'loader.CompositeHandler.__len__', 'matcher.BaseMatcher.__init__',
                           'matcher.SectionMatcher.__init__', 'matcher.BaseMatcher.createChildMatcher',
                           'matcher.SchemaMatcher.__init__', 'matcher.SchemaMatcher.finish', 'loader.ConfigLoader.loadResource'],
             'bind': ['bind:handlers'], 'standin': True},
     'C17': {'functions': [], 'standin': True},
-    'C18': {'functions': ['loader.BaseLoader.isPath', 'loader.BaseLoader.normalizeURL', 'loader._url_from_file',
+    'C18': {'functions': ['url.urlnormalize', 'url.urldefrag', 'url.urljoin', 'loader.BaseLoader.isPath', 'loader.BaseLoader.normalizeURL', 'loader._url_from_file',
                           'loader.BaseLoader._raise_open_error', CFG + '__init__', CFG + 'handle_include'],
             'rx': ['rx:loader._pathsep_rx'], 'standin': True},
     'C19': {'functions': ['loader.Resource.__init__', 'loader.Resource.close', 'loader.Resource.__enter__',
@@ -141,6 +144,11 @@ def _with_env(env, args):
 SUBST_ALPHA = ['$', '{', '}', '(', ')', 'a', 'B', '_', '1', '-']
 
 NATIVE = {
+    'url.urlnormalize': {
+        'call': lambda url: __import__('ZConfig.url', fromlist=['x']).urlnormalize(url),
+        'domain': {'url': ('choice', ['file:/a/B', 'FILE:/A/b', 'File:/x', 'file:///a/B', 'FILE:///A', 'file://h/A', 'file:a',
+                                      'http://x/A', '/a/B', '', 'file:/', 'file:'])},
+    },
     'components.logger.datatypes.logging_level': {
         'call': lambda value: __import__('ZConfig.components.logger.datatypes', fromlist=['x']).logging_level(value),
         'domain': {'value': ('choice', ['critical', 'FATAL', 'Error', 'warn', 'warning', 'info', 'blather', 'debug', 'trace',
